@@ -327,7 +327,8 @@ def size_logs(nvars_list, seeds, count):
                         ['lambda', 0, ['and', ['v', 'v0'], ['or', ['v', 'v%d' % (1 + i)], ['not', ['v', 'v%d' % (2 + i)]]]]],
                         ['parse', 0, ['or', ['v', 'v%d' % i], ['and', ['v', 'v%d' % (i + 1)], ['v', 'v%d' % (i + 2)]]], 'sym'],
                         ['parse', 0, ['or', ['v', 'v%d' % i], ['and', ['v', 'v%d' % (i + 1)], ['v', 'v%d' % (i + 2)]]], 'word']]
-            log += [['gc'], ['printall'], ['bulk', count // 2, 2000 + sd, 0], ['restr', 0], ['inv', 1], ['inv', -1]]
+            log += [['gc'], ['printall'], ['churn', 140 + 20 * (sd % 7), sd], ['parse', 0, ['and', ['v', 'v0'], ['v', 'v1']], 'sym'],
+                    ['bulk', count // 2, 2000 + sd, 0], ['restr', 0], ['inv', 1], ['inv', -1]]
             out.append({'orders': [order, list(reversed(order))], 'log': log})
     return out
 
@@ -496,7 +497,7 @@ def machine_shard(st, shard, nshards, payload):
             self._do(['printall'])
 
         @precondition(lambda self: self.world is not None and self.world.counts.get('bulk', 0) < 1 and
-                      sum(map(ord, ''.join(self.orders[0] + self.orders[1]))) % 3 == 0)
+                      sum(map(ord, ''.join(self.orders[0] + self.orders[1]))) % 5 == 0)
         @rule(count=hs.sampled_from([40, 110, 110]), seedv=hs.integers(1, 10 ** 6), k=hs.integers(0, 1))
         def bulk_build(self, count, seedv, k):
             self._do(['bulk', count, seedv, k])
@@ -505,8 +506,9 @@ def machine_shard(st, shard, nshards, payload):
         def bulk_drop(self):
             self._do(['unbulk'])
 
-        @precondition(lambda self: self.world is not None and self.world.counts.get('churn', 0) < 2)
-        @rule(count=hs.sampled_from([3, 30, 135, 135, 260]), which=hs.integers(0, 6))
+        @precondition(lambda self: self.world is not None and self.world.counts.get('churn', 0) < 1 and
+                      sum(map(ord, ''.join(self.orders[0]))) % 2 == 0)
+        @rule(count=hs.sampled_from([3, 30, 135, 135]), which=hs.integers(0, 6))
         def churn_orderings(self, count, which):
             self._do(['churn', count, which])
 
@@ -592,8 +594,8 @@ def run(ctx):
     if f is not None:
         ctx.violation(f)
         return
-    sp = {'nvars': ctx.pick([7, 9], [7, 8, 9, 10, 11]), 'seeds': ctx.pick([1, 2, 3, 4], list(range(1, 17))),
-          'count': ctx.pick(150, 320)}
+    sp = {'nvars': ctx.pick([8], [7, 8, 9, 10, 11]), 'seeds': ctx.pick([1, 2, 3, 4, 5, 6, 7, 8], list(range(1, 17))),
+          'count': ctx.pick(120, 320)}
     ctx.scopes.append('size: deterministic histories with %d + %d random sums of products / products of sums alive at once over %s variables, '
                       'then every way of re-creating live functions (restr, f&f, f|f, ~~f, Shannon rebuild, lambda, parse)' % (
                           sp['count'], sp['count'] // 2, sp['nvars']))
